@@ -6,6 +6,7 @@ require (
 	github.com/cenkalti/backoff/v4 v4.3.0
 	github.com/go-faster/errors v0.8.0
 	github.com/gotd/ige v0.3.0
+	github.com/gotd/log v0.1.0
 	github.com/gotd/neo v0.1.5
 	github.com/gotd/td v0.0.0
 )
@@ -16,7 +17,6 @@ require (
 	github.com/coder/websocket v1.8.15 // indirect
 	github.com/go-faster/jx v1.2.0 // indirect
 	github.com/go-faster/xor v1.0.0 // indirect
-	github.com/gotd/log v0.1.0 // indirect
 	github.com/klauspost/compress v1.19.1 // indirect
 	github.com/refraction-networking/utls v1.8.2 // indirect
 	github.com/segmentio/asm v1.2.1 // indirect
